@@ -42,10 +42,21 @@ type envCase struct {
 // the grammar of one variable in the generated script
 var varBlock = regexp.MustCompile(`(?s)^([A-Za-z_]+)=\$\(cat <<'([A-Za-z]+)'\n(.*?)\n([A-Za-z]+)\n\)\nexport ([A-Za-z_]+)\n`)
 
+// decoyEnvs: another sandbox's environment, whose script is built AFTER ours and BEFORE ours is read (several
+// sandboxes are started side by side): the reader we were handed must not depend on later calls
+func decoyEnvs() commservices.Environments {
+	d := envs.NewEnvironments()
+	d.Set("DECOY", "decoy-value")
+	return d
+}
+
 func buildScript(kind string, e commservices.Environments) (string, error) {
 	if kind == "container" {
 		r, err := dcmd.InitSequence(e)
 		if err != nil {
+			return "", err
+		}
+		if _, err := dcmd.InitSequence(decoyEnvs()); err != nil {
 			return "", err
 		}
 		b, err := ioutil.ReadAll(r)
@@ -53,6 +64,9 @@ func buildScript(kind string, e commservices.Environments) (string, error) {
 	}
 	r, err := sshsb.VerifInitSequence("", e)
 	if err != nil {
+		return "", err
+	}
+	if _, err := sshsb.VerifInitSequence("", decoyEnvs()); err != nil {
 		return "", err
 	}
 	b, err := ioutil.ReadAll(r)
